@@ -283,13 +283,19 @@ def rand_ranges(rng, c, disjoint=False, allow_last=True, focus=None):
 def updr_line(rng, c, path=None, focus=None):
     ops = c.ops()
     op = rng.choice(ops)
-    path = path or rng.choice(['slice', 'expand'])
+    path = path or rng.choice(['slice', 'expand', 'thr'])
     need_disjoint = (op == 'replace') or (op == 'add' and not c.zero_sentinel())
     rows = rand_ranges(rng, c, disjoint=need_disjoint, focus=focus)
     rtxt = ','.join("%d:%d" % ab for ab in rows) or '_'
+    if path == 'thr':
+        # exercise the threshold switch itself: a threshold near the total number of pixels addressed
+        total = sum(b - a for a, b in rows)
+        ptxt = 'thr=%d' % max(0, total + rng.choice([-1, 0, 0, 1]))
+    else:
+        ptxt = 'path=%s' % path
     if rng.random() < 0.2:
-        return "updr %s op=replace none=1 ranges=%s path=%s" % (c.name, rtxt, path)
-    return "updr %s op=%s ranges=%s val=%s path=%s" % (c.name, op, rtxt, c.val(rng), path)
+        return "updr %s op=replace none=1 ranges=%s %s" % (c.name, rtxt, ptxt)
+    return "updr %s op=%s ranges=%s val=%s %s" % (c.name, op, rtxt, c.val(rng), ptxt)
 
 
 def scalar_op_line(rng, c, inplace=None, r='t1'):
